@@ -108,9 +108,13 @@ def run(chk, scratch):
                 labels.append("lab%d" % fi)
             extra += ["--read_group", "file_name", "--labels"] + labels
         else:
+            if mode == "tag" and hs % 2 == 1:
+                # a lower-case tag (the SAM specification reserves lower-case codes for users; tag names are case sensitive)
+                for r_ in w.reads:
+                    r_.tags = [("xg" if k_ == "CB" else k_, v_) for k_, v_ in r_.tags]
             w.write_bam(os.path.join(d, "r.bam"))
             if mode == "tag":
-                extra += ["--read_group", "tag:CB"]
+                extra += ["--read_group", "tag:xg" if hs % 2 == 1 else "tag:CB"]
             elif mode == "read_id":
                 extra += ["--read_group", "read_id:_"]
             else:
